@@ -15,7 +15,7 @@ A3 = "A3: a single frame / parameter string is shorter than 2^32 bytes"
 A4 = "A4: fewer than 2^32 fragments per FragmentedMuxer"
 A5 = "A5: fewer than 2^64 frames per muxer (frame counters)"
 SINK = "the sink is environment: std::io::Write::write_all is assumed to append all of the buffer or to fail after a prefix (prelude/sink.vrs); the muxer only ever calls write_all"
-FLOAT = "IEEE-754 doubles are uninterpreted in Verus (prelude/f64.vrs); their arithmetic facts are decided on the real API functions by the complete Kani harnesses k_api_ticks_video / k_api_ticks_second_frame (all f64 bit patterns), plus k_ticks_nearest (complete) and kb_ticks_monotone / kb_stats_secs (bounded)"
+FLOAT = "IEEE-754 doubles are uninterpreted in Verus (prelude/f64.vrs); their arithmetic facts are decided on the real API functions by the complete Kani harnesses k_api_ticks_video / k_api_ticks_second_frame (all f64 bit patterns), k_api_ticks_audio and k_ticks_nearest (complete)"
 BOUNDED_LEAVES = ("std models: the iterator-adapter chains of SampleTables::from_samples are rewritten to loops by rule R8 (std semantics of "
                   "iter/map/filter_map/collect assumed) and std's slice sort in compute_interleave_schedule is modelled by its documented postcondition "
                   "(sorted permutation; unit sched); BOUNDED Kani harnesses additionally run the UNMODIFIED functions (from_samples 0..3 samples, "
@@ -53,7 +53,7 @@ PROPS = {
         'text': 'The writer invariant track_wf (every sample but the last carries the exact distance to its successor, computed from absolute ticks) is proved for all call histories; the stts/ctts builders are proved to be '
                 'the maximal run-length encoding whose expansion is the duration list; the public calls are proved to hand ticks(pts)/ticks(dts) unchanged to the writer.',
         'note': FLOAT + '; ' + BOUNDED_LEAVES,
-        'kani': FROMS + ['kb_total_duration', 'kb_total_duration_fits', 'k_api_ticks_video', 'k_api_ticks_second_frame'], 'kani_thorough': FROMS_T + ['k_ticks_nearest', 'kb_ticks_monotone'],
+        'kani': FROMS + ['kb_total_duration', 'kb_total_duration_fits', 'k_api_ticks_video', 'k_api_ticks_second_frame', 'k_api_ticks_audio'], 'kani_thorough': FROMS_T + ['k_ticks_nearest'],
         'assumptions': [FLOAT, BOUNDED_LEAVES],
     },
     'C04': {
@@ -78,8 +78,8 @@ PROPS = {
         'technique': 'Verus: finish-once flags, frame conditions (sink untouched by writes), byte accounting through write_counted, statistics contracts',
         'text': 'Write calls are proved not to touch the sink; finalize sets the flag before the first write and refuses re-entry; bytes_written is proved to equal the number of bytes the sink accepted; '
                 'the statistics equal the queue lengths and the largest presentation end over all samples (max_end_pts contract).',
-        'note': SINK + '; ' + A2 + '; seconds = ticks/90000 is a float division (bounded Kani harness kb_stats_secs)',
-        'kani': [], 'kani_thorough': ['kb_stats_secs'], 'assumptions': [SINK, A2, FLOAT],
+        'note': SINK + '; ' + A2 + '; seconds = ticks/90000 is one IEEE division of the exact tick count (the contract pins the operands; nothing further is claimed about IEEE division)',
+        'kani': [], 'assumptions': [SINK, A2, FLOAT],
     },
     'C07': {
         'title': 'The codec configuration in the file is exactly that of the submitted stream',
@@ -103,7 +103,7 @@ PROPS = {
         'text': 'The writer contract proves that audio sample durations are the exact distances of the submitted timestamps, so audio sample j decodes at pts_j - pts_0; the trak builders emit [tkhd, mdia] only. '
                 'Synchronisation therefore reduces to one obligation that no guard establishes; it is kept as a named failing lemma (known finding) so that any other C09 regression is still reported.',
         'note': 'decidable only up to the recorded finding',
-        'kani': [], 'assumptions': [],
+        'kani': ['k_api_ticks_audio'], 'assumptions': [],
     },
     'C10': {
         'title': 'Fragmented muxing conserves samples across any write/flush interleaving',
@@ -151,7 +151,7 @@ PROPS = {
         'text': 'Both finalize functions are proved to store the j-th schedule entry directly after the j earlier ones and to assign its offset accordingly, using the same functional schedule in every pass; '
                 'the ordering clause of the schedule itself (sort_by_key) is outside Verus and is checked bounded.',
         'note': BOUNDED_LEAVES,
-        'kani': SCHED, 'kani_thorough': SCHED_T, 'assumptions': [BOUNDED_LEAVES],
+        'kani': SCHED + ['k_api_ticks_audio'], 'kani_thorough': SCHED_T, 'assumptions': [BOUNDED_LEAVES],
     },
     'C16': {
         'title': 'No numeric field is silently truncated; declared durations match the tables',
